@@ -23,6 +23,55 @@ from . import taylor
 HE = "quantarhei.qm.liouvillespace.heom."
 
 
+def rule_O(run, prog):
+    """Taint from the parameters (the auxiliary operators handed in) through assignments; flagged: conj / conjugate /
+    transpose / adjoint calls, `.T`, `.H`, `.conj()` whose operand mentions a tainted name, in every method of
+    KTHierarchyPropagator whose name contains 'rhs'."""
+    rid = "C16-O"
+    cls = prog.cls(HE + "KTHierarchyPropagator")
+    n = 0
+    for name, f in sorted(cls.methods.items()):
+        if "rhs" not in name or not isinstance(f.node, ast.FunctionDef):
+            continue
+        n += 1
+        prog.consulted.add(f.relpath)
+        tainted = {a_.arg for a_ in f.node.args.args if a_.arg.startswith("ado") or a_.arg.startswith("rho")}
+        changed = True
+        while changed:
+            changed = False
+            for x in walk_no_nested(f.node):
+                if isinstance(x, (ast.Assign, ast.AugAssign)):
+                    tg = x.targets if isinstance(x, ast.Assign) else [x.target]
+                    if any(isinstance(y, ast.Name) and y.id in tainted for y in ast.walk(x.value)):
+                        for t_ in tg:
+                            b_ = t_
+                            while isinstance(b_, ast.Subscript):
+                                b_ = b_.value
+                            if isinstance(b_, ast.Name) and b_.id not in tainted:
+                                tainted.add(b_.id)
+                                changed = True
+
+        def mentions(e):
+            return any(isinstance(y, ast.Name) and y.id in tainted for y in ast.walk(e))
+        bad = []
+        for x in walk_no_nested(f.node):
+            if isinstance(x, ast.Call):
+                cn = (call_name(x) or "").split(".")[-1]
+                if cn in ("conj", "conjugate", "transpose", "swapaxes", "adjoint", "matrix_transpose"):
+                    ops = list(x.args) + ([x.func.value] if isinstance(x.func, ast.Attribute) else [])
+                    if any(mentions(o) for o in ops):
+                        bad.append((x, norm(x)[:50]))
+            elif isinstance(x, ast.Attribute) and x.attr in ("T", "H", "mT") and mentions(x.value):
+                bad.append((x, norm(x)[:50]))
+        run.obligation(rid, f.short, not bad, key="linear-in-the-state",
+                       message="%s conjugates / transposes a value computed from the auxiliary operators (%s): the right-hand side is "
+                               "then correct for Hermitian auxiliary operators only, and an initial coherence |e><g| is propagated "
+                               "into something else than |e><g| exp(-iwt - g(t))" % (f.short, "; ".join(t for _, t in bad[:2])),
+                       loc=f.loc(bad[0][0]) if bad else f.loc(), sample={"method": f.short, "tainted": sorted(tainted)[:6]})
+    if n < 2:
+        raise AnalysisError("C16-O: the right-hand sides of KTHierarchyPropagator were not found (%d)" % n)
+
+
 def check(run, prog, tier):
     run.explanation = (
         "TA interpretation of one (nn,kk) iteration of _ado_self_rhs/_ado_cros_rhs with the link "
@@ -83,6 +132,11 @@ def check(run, prog, tier):
     intunits.check_classes(run, prog, "C16-H", [HE + "KTHierarchy", HE + "KTHierarchyPropagator"], 3,
                            "gamma, kBT and the time step are internal: the hierarchy no longer converges to the "
                            "analytic solution")
+    run.rule("C16-O", "'for all initial states' (the kernel and the response calculations propagate bare coherences |e><g|, which are "
+                      "not Hermitian): the right-hand sides of the hierarchy are linear in the auxiliary operators - V.rho and rho.V are "
+                      "both computed as products with the system-bath operator; nothing derived from the auxiliary operators is "
+                      "conjugated or transposed (rho.V = (V.rho)^+ holds for Hermitian operators only)", minimum=2)
+    rule_O(run, prog)
 
 
 def rule_I(run, prog):
